@@ -73,6 +73,7 @@ struct Thread {
   uint32_t spin;         // consecutive yields without progress
   uint32_t load_streak;  // consecutive atomic loads without a write
   int64_t last_clock_read;  // virtual time of this thread's last clock read
+  uint32_t sc_clk;       // own clock value at this thread's last seq_cst fence (0: none yet)
 };
 
 struct MutexSt { uintptr_t addr; int owner; int count; VC vc; };
@@ -600,6 +601,21 @@ void cell_sync(Cell* c, int off, int size) {
     }
 }
 
+// Mixed-size accesses (a 16-bit store into a word others CAS as 32 bits) are outside ISO C++; the reading chosen
+// here is the one every multi-copy-atomic machine gives (x86, ARMv8): once a thread's own write V to a cell has
+// been followed by one of its seq_cst fences, every write that overlaps V and precedes it in the cell's order is
+// globally performed, so the thread's later loads cannot take ANY lane from before such a write (for accesses of
+// one size this is plain write-read coherence and removes nothing). Without the fence the lanes V does not
+// cover stay free, which is what makes a missing fence in a "store half, re-load whole" waker observable.
+bool covered_by_own_fenced_write(const Thread* t, const Cell* c, int idx) {
+  const WriteRec& w = c->w[idx];
+  for (int j = idx + 1; j < c->n; j++) {
+    const WriteRec& v = c->w[j];
+    if (v.wtid == t->id && (v.mask & w.mask) && t->sc_clk && v.wclk <= t->sc_clk) return true;
+  }
+  return false;
+}
+
 bool known(const Thread* t, const WriteRec& w) {
   if (w.wtid < 0) return true;
   if (t->vc.c[w.wtid] >= w.wclk) return true;
@@ -657,7 +673,7 @@ void choose_lanes(Thread* me, Cell* c, int off, int size, bool allow_stale, int*
       const WriteRec& w = c->w[cur];
       // the message below `cur` is readable only if `cur` itself is not known to
       // us, was not read stale by us last time, and is still young.
-      if (known(me, w)) break;
+      if (known(me, w) || covered_by_own_fenced_write(me, c, cur)) break;
       if (G.steps - w.step > STALE_AGE_STEPS) break;
       int prev = -1;
       for (int i = cur - 1; i >= 0; i--)
@@ -723,12 +739,22 @@ void note_read(Thread* me, WriteRec& w, bool stale) {
 bool is_acq(int mo) { return mo == 1 || mo == 2 || mo == 4 || mo == 5; }
 bool is_rel(int mo) { return mo == 3 || mo == 4 || mo == 5; }
 
+// DSCHED_TRACE=1 (for replays): one line per atomic access / futex call on stderr
+static int g_trace = -1;
+static inline bool tracing() {
+  if (g_trace < 0) { const char* e = getenv("DSCHED_TRACE"); g_trace = (e && *e == '1') ? 1 : 0; }
+  return g_trace == 1;
+}
+#define TRACE(...) do { if (tracing()) fprintf(stderr, __VA_ARGS__); } while (0)
+
 void fence_impl(Thread* me, int mo) {
+  TRACE("[T%d] fence mo=%d\n", me->id, mo);
   me->vc.c[me->id]++;
   if (is_acq(mo)) me->vc.join(me->acq_pending);
   if (mo == 5) {
     me->vc.join(G.sc);
     G.sc = me->vc;
+    me->sc_clk = me->vc.c[me->id];
   }
   if (is_rel(mo)) me->rel_fence = me->vc;
 }
@@ -765,6 +791,7 @@ uint64_t do_load(Thread* me, uintptr_t a, int size, int mo, bool allow_stale) {
   else me->acq_pending.join(acq);
   if (mo == 5) fence_impl(me, 5);
   me->load_streak++;
+  TRACE("[T%d] load  %p/%d mo=%d -> %#llx%s\n", me->id, (void*)a, size, mo, (unsigned long long)v, stale ? " (STALE)" : "");
   return v;
 }
 
@@ -781,6 +808,7 @@ void do_store(Thread* me, uintptr_t a, int size, uint64_t v, int mo) {
   if (is_rel(mo)) rel = me->vc;
   else rel = me->rel_fence;
   append_write(me, c, off, size, v, rel);
+  TRACE("[T%d] store %p/%d mo=%d <- %#llx\n", me->id, (void*)a, size, mo, (unsigned long long)v);
   if (mo == 5) fence_impl(me, 5);
   me->load_streak = 0;
   me->spin = 0;
@@ -814,6 +842,7 @@ uint64_t do_rmw(Thread* me, uintptr_t a, int size, int mo, int fmo, Op op, bool*
   uint64_t nv = 0;
   bool write = op(old, &nv);
   *did_write = write;
+  TRACE("[T%d] rmw   %p/%d mo=%d old=%#llx %s new=%#llx\n", me->id, (void*)a, size, mo, (unsigned long long)old, write ? "WRITE" : "nowrite", (unsigned long long)nv);
   if (write) {
     if (is_acq(mo)) me->vc.join(acq);
     else me->acq_pending.join(acq);
@@ -1160,6 +1189,7 @@ long syscall(long number, ...) {
       sched_point_impl(me, false);
       fence_impl(me, 5);
       uint32_t cur = (uint32_t)do_load(me, (uintptr_t)addr, 4, 0, true);
+      TRACE("[T%d] futex_wait %p expect=%#x cur=%#x %s\n", me->id, (void*)addr, val, cur, cur != val ? "EAGAIN" : "SLEEP");
       if (cur != val) {
         errno = EAGAIN;
         return -1;
@@ -1183,6 +1213,7 @@ long syscall(long number, ...) {
       fence_impl(me, 5);
       int woken = 0;
       int limit = (int)val < 0 ? INT32_MAX : (int)val;
+      TRACE("[T%d] futex_wake %p n=%d\n", me->id, (void*)addr, limit);
       // candidates in id order; which ones are woken when limit < waiters is a decision
       int w[MAXT], nw = 0;
       for (int i = 0; i < G.nth; i++)
